@@ -948,11 +948,22 @@ func proveSite(c *Ctx, g *Gate, s *Summary, fn *ssa.Function, rc Ref, x, lo, hi 
 					continue
 				}
 				sub := map[string]*E{it.key: leaf}
+				// every other selection on the same condition takes the same side
+				for _, o := range sameCondItes(u, it, cs.cond, cs.x, cs.lo, cs.hi) {
+					switch {
+					case o.B == it.B:
+						sub[o.key] = o.Args[i]
+					case o.B == u.bdd.Not(it.B):
+						sub[o.key] = o.Args[1-i]
+					}
+				}
 				acc := map[string]*E{}
 				for k, v := range cs.sub {
 					acc[k] = u.Subst(v, sub)
 				}
-				acc[it.key] = leaf
+				for k, v := range sub {
+					acc[k] = v
+				}
 				n := cas{cond: u.SubstBool(cc, sub), x: u.Subst(cs.x, sub), sub: acc}
 				if cs.lo != nil {
 					n.lo = u.Subst(cs.lo, sub)
@@ -1007,6 +1018,40 @@ func proveSite(c *Ctx, g *Gate, s *Summary, fn *ssa.Function, rc Ref, x, lo, hi 
 	return true, fmt.Sprintf("%d case(s): %s", len(cases), clip(strings.Join(used, "/"), 80))
 }
 
+// sameCondItes lists the selections, inside es or inside the atoms of cond,
+// whose condition is that of it or its negation.
+func sameCondItes(u *U, it *E, cond Ref, es ...*E) []*E {
+	var out []*E
+	seen := map[*E]bool{}
+	notB := u.bdd.Not(it.B)
+	var rec func(v *E)
+	rec = func(v *E) {
+		if v == nil || seen[v] {
+			return
+		}
+		seen[v] = true
+		if v.Op == "ite" && v != it && (v.B == it.B || v.B == notB) {
+			out = append(out, v)
+		}
+		if v.Op == "bool" {
+			for _, a := range u.bdd.Support(v.B) {
+				rec(u.atoms[a])
+			}
+			return
+		}
+		for _, a := range v.Args {
+			rec(a)
+		}
+	}
+	for _, e := range es {
+		rec(e)
+	}
+	for _, a := range u.bdd.Support(cond) {
+		rec(u.atoms[a])
+	}
+	return out
+}
+
 // proveCase0 proves one case; with cube != nil the literals of that cube are assumed instead of the implied literals of cond.
 func proveCase0(c *Ctx, g *Gate, s *Summary, fn *ssa.Function, u *U, cond Ref, x, lo, hi *E, isIndex bool, cube map[int]bool, sub map[string]*E) (bool, string) {
 	type casT struct {
@@ -1030,6 +1075,10 @@ func proveCase0(c *Ctx, g *Gate, s *Summary, fn *ssa.Function, u *U, cond Ref, x
 					L.onTrue(u.atoms[v])
 				}
 			}
+		}
+		if len(sub) > 0 {
+			// the bound of a loop may be known only through the facts of this case
+			loopFacts(L, g, s, fn)
 		}
 		for _, e := range []*E{cs.x, cs.lo, cs.hi} {
 			if e != nil {
@@ -1232,6 +1281,20 @@ func loopFacts1(L *Lin, g *Gate, s *Summary, fn *ssa.Function) {
 					for _, lt := range l.Latches {
 						cont = u.bdd.Or(cont, s.RC[lt])
 					}
+					// the part of the site's condition that speaks of no loop-carried value
+					// held on every iteration too (a case split on a selection made before the loop)
+					if L.cond != False && L.cond != True {
+						inv := L.cond
+						for _, v := range u.bdd.Support(L.cond) {
+							if u.Mentions(u.atoms[v], func(x *E) bool { return x.Op == "loopphi" || x.Op == "loopval" }) {
+								inv = u.bdd.Exists(inv, v)
+							}
+						}
+						cont = u.bdd.And(cont, inv)
+					}
+					if os.Getenv("UFCHECK_DEBUG_LOOP") != "" {
+						fmt.Fprintf(os.Stderr, "LOOPDBG p=%s init=%s cont=%s\n", u.Show(p), u.Show(inits[0]), clip(u.ShowBool(cont), 400))
+					}
 					for _, v := range u.bdd.Support(cont) {
 						at := u.atoms[v]
 						// p+k < B (range form: 1+p < len): steps of one under the guard keep p+k <= B
@@ -1249,6 +1312,12 @@ func loopFacts1(L *Lin, g *Gate, s *Summary, fn *ssa.Function) {
 						isNe := at.Op == "eq" && (at.Args[0] == p || at.Args[1] == p) && u.bdd.Implies(cont, u.bdd.Not(u.bdd.Var(v))) && stepsByOne(l, ph)
 						if (isLt || isNe) && !u.Mentions(otherArg(at, p), func(x *E) bool { return x == p }) {
 							B := otherArg(at, p)
+							if len(L.sub) > 0 {
+								B = u.Subst(B, L.sub)
+							}
+							if os.Getenv("UFCHECK_DEBUG_LOOP") != "" {
+								fmt.Fprintf(os.Stderr, "LOOPDBG2 p=%s B=%s nsub=%d ent=%v\n", u.Show(p), u.Show(B), len(L.sub), L.entails(L.linearize(inits[0]), L.linearize(B), 0))
+							}
 							// all increments happen inside the loop body, i.e. under cont
 							if L.entails(L.linearize(inits[0]), L.linearize(B), 0) {
 								L.leE(p, B, 0)
